@@ -26,14 +26,20 @@ CONF = dict(
           'authenticators (ignored+bad, good+bad, bad+good), end-to-end extension without authenticator, no extension at all, hop-by-hop extension in front (with good and bad MAC), '
           'timestamp option (valid, one second in the past, malformed) with and without authenticator, unregistered path type; directed scripts: wrong MAC then genuine, two '
           'wrong MACs then genuine (retry exhausted), wrong MAC then unauthenticated response, ignored authenticator alone; NTS over SCION (Auth.NTSEnabled, keys from the TLS '
-          'key exchange, server in another or in the client\'s ISD-AS) with every NTS recipe of the IP client, with and without the packet authenticator. Observed: the error of every exchange (call logger), the four timestamps combined (recording filter), the offset and error '
+          'key exchange, server in another or in the client\'s ISD-AS) with every NTS recipe of the IP client, with and without the packet authenticator. Further families: *.late (the clients read timebase.Now() through a '
+          'clock of the harness that jumps an hour ahead when the request has arrived at the peer: every retry decision finds the deadline passed, so the first non-matching '
+          'datagram of each retry branch ends the call), *.nofilter (clients without Filter, as the tool commands use them, observed through their debug log and the returned '
+          'offset), *.servers (two servers with interleaved mode on: the caller passes now one now the other remote address, also in IPv4-mapped form; with NTS the key '
+          'exchange delivers one cookie and names now one now the other address - not the configured one -, responses carry no new cookie so that every exchange re-keys; '
+          'the response of the address that is not queried is injected), ip6.hist (IP client and peer on ::1), datagrams around the size of the SCION client\'s receive '
+          'buffer (9187..10000 bytes: MSG_TRUNC), client.badlocal (local address that is no IP address: an error, nothing sent). Observed: the error of every exchange (call logger), the four timestamps combined (recording filter), the offset and error '
           'returned, the timestamp fields of every request on the wire. A history is non-trivial when at least one delivered datagram differs from a genuine response; '
           'distinct = distinct (kind, input)'),
     assumptions=['symbolic AEAD for the NTS clause (C05_nts_authentic: a ciphertext opens only if the key holder sealed it with exactly that associated data)',
                  'time.Time as unbounded nanoseconds; the kernel (which datagrams arrive, in which order, from where, with which receive stamp), the clock readings and, for '
                  'SCION, the gopacket/scionproto parse and the CMAC comparison are inputs of the model, quantified over without restriction (ideal MAC: the theorems speak about '
                  '"the MAC of the authenticator the client looks at verifies", the harness decides that with scionproto spao.ComputeAuthCMAC under the mock key)',
-                 'payloads are byte strings (0..255) for the oracle theorem'],
+                 'payloads are byte strings (0..255) for the oracle theorem; the views handed to the oracle are faithful (flags do not understate the facts) for whichever request is outstanding'],
     trusted=['modelled, not verified: net.UDPConn.ReadMsgUDPAddrPort (MSG_TRUNC when the datagram exceeds the buffer), miscreant AES-SIV-CMAC (answers recomputed by the '
              'harness and matched against the model\'s query), crypto/tls exporter, the recording slog handler and measurements.Filter used to observe the client',
              'SCION client: driven through MeasureClockOffsetSCION with one client and an empty path; plain NTP, packet authenticator (DRKey mock keys: every host-host key is '
